@@ -119,7 +119,8 @@ class Module:
             # the contract of this function can no longer be woven / checked on the current text (lost anchor, construct outside Verus):
             # keep the unit alive by emitting it with its pre/postcondition ASSUMED, and report the function as UNDECIDED
             self.unit.demoted[label] = str(e)
-            spec = FnSpec(spec.name, requires=spec.requires, ensures=spec.ensures, ret=spec.ret, mode='assumed', props=spec.props,
+            # a body the front end (rustc name resolution / Verus) rejects cannot stay in the file even as external_body: drop it
+            spec = FnSpec(spec.name, requires=spec.requires, ensures=spec.ensures, ret=spec.ret, mode=('assumed_sig' if label in FORCE_DEMOTE else 'assumed'), props=spec.props,
                           rename=spec.rename, params=spec.params, note='DEMOTED (undecided on the current text): %s' % e)
             text = weave_fn(sf, it, spec, self.unit.log, label)
             allow_canary = False
@@ -329,6 +330,71 @@ class Module:
         return self
 
 
+def auto_std_uses(sf, have_text):
+    """`use std::..` / `use core::..` / `use alloc::..` declarations at the top level of the source file, flattened to one path per imported
+    name, minus the names the unit header already imports.  Emitted so that a change which starts using another std item (BTreeSet, VecDeque ..)
+    is still resolved by rustc instead of making the unit undecided."""
+    toks = sf.toks
+    out = []
+    have = set(re.findall(r'[A-Za-z_][A-Za-z0-9_]*', have_text))
+    i = 0
+    depth = 0
+    n = len(toks)
+    while i < n:
+        t = toks[i]
+        if t.text in ('{', '(', '['):
+            i = match_close(toks, i) + 1
+            continue
+        if t.text == 'use' and toks[i + 1].text in ('std', 'core', 'alloc') and (i == 0 or toks[i - 1].text in (';', '}', ']')):
+            j = i + 1
+            while toks[j].text != ';':
+                if toks[j].text == '{':
+                    j = match_close(toks, j)
+                j += 1
+
+            def flat(lo, hi, prefix):
+                k = lo
+                seg = []
+                while k < hi:
+                    x = toks[k]
+                    if x.text == '{':
+                        e = match_close(toks, k)
+                        flat(k + 1, e, prefix + seg)
+                        seg = None
+                        k = e + 1
+                        continue
+                    if x.text == ',':
+                        if seg:
+                            emit(prefix + seg)
+                        seg = []
+                    elif x.text == '::':
+                        pass
+                    elif x.text == 'as':
+                        seg = None   # aliases are not auto-imported
+                        while k < hi and toks[k].text != ',':
+                            k += 1
+                        continue
+                    elif seg is not None:
+                        seg.append(x.text)
+                    else:
+                        seg = [x.text] if x.text != ',' else []
+                    k += 1
+                if seg:
+                    emit(prefix + seg)
+
+            def emit(path):
+                name = path[-1]
+                if name in ('self', '*') or name in have or len(path) < 2:
+                    return
+                have.add(name)
+                out.append('#[allow(unused_imports)] use %s;' % '::'.join(path))
+            flat(i + 1, j, [])
+            i = j + 1
+            continue
+        i += 1
+    return out
+
+
 def _impl_type_name(header):
     # 'impl < E > OpError < E >' -> OpError ; 'impl From < X > for Y' -> Y
     h = header
@@ -444,6 +510,13 @@ class Unit:
         def emit_mod(m, depth):
             put('%s mod %s {\n' % (m.vis, m.name) if m.name else '')
             put('#[allow(unused_imports)] use vstd::prelude::*;\n' + m.uses + '\n')
+            if m.file and getattr(m, 'auto_uses', True):
+                try:
+                    extra = auto_std_uses(m.sf(), m.uses + ' Vec Option Result Box String Some None Ok Err')
+                except Exception:
+                    extra = []
+                if extra:
+                    put('\n'.join(extra) + '\n')
             for ch in m.chunks:
                 put(ch.text, ch)
             for s in m.sub:
